@@ -542,6 +542,9 @@ def resolve_alias(cls, field):
     return field
 
 
+FIELD_INVARIANTS = {}      # (owner class, field) -> (fact builder, justification): a field written only by constructors with checked arguments
+
+
 def heap_get(st, ref, field):
     field = resolve_alias(ref.cls, field)
     ty, owner = field_type(ref.cls, field)
@@ -549,6 +552,7 @@ def heap_get(st, ref, field):
     arrs = heap_arrays(st, key, ty)
     v = build(ty, [z3.Select(a, ref.term) for a in arrs])
     st.pc += wf(v)
+    if key in FIELD_INVARIANTS: st.pc.append(FIELD_INVARIANTS[key][0](v))
     if 'alloc' in st.ghost:
         a = st.ghost['alloc']
         if isinstance(v, VRef): st.pc.append(z3.And(v.term > 0, v.term <= a))
@@ -560,6 +564,7 @@ def heap_set(st, ref, field, val):
     field = resolve_alias(ref.cls, field)
     ty, owner = field_type(ref.cls, field)
     key = (owner, field)
+    if key in FIELD_INVARIANTS and not getattr(st, 'in_model', False): raise ToolLimit('assignment to %s.%s, a field under a construction-site invariant' % key)
     arrs = heap_arrays(st, key, ty)
     if isinstance(val, VNone) and isinstance(ty, TOpt): val = VOpt(z3.BoolVal(True), fresh_none_payload(ty.elem))
     parts = parts_of(ty, val)
